@@ -5,7 +5,7 @@
    check_corr: the mirrored expressions of Model.v evaluate to (a), and the denotation of Spec.v reproduces (b), (c).
    check_spec: the property itself on the implementation's observations: (a) agrees with (b)/(c). *)
 From Coq Require Import ZArith QArith Qround List Bool.
-Require Import QV.common.Util QV.C07.Model QV.C07.Spec QV.C07.Wf.
+Require Import QV.common.Util QV.C07.Model QV.C07.Spec QV.C07.Wf QV.C07.Embed.
 Import ListNotations.
 Open Scope Q_scope.
 
